@@ -115,6 +115,35 @@ Proof. exact divF_correct. Qed.
 
 Print Assumptions C07_mulF.
 
+(** addition and subtraction: float_overflow or the correctly rounded, finite IEEE
+    sum; an out-of-range sum is always reported (F32, repaired: the sum of
+    1.7976931348623155e308 and 2.9937604643020797e292 was returned as inf) *)
+Theorem C07_addF : forall x y : f64, fis_finite x = true -> fis_finite y = true ->
+  let s := rnd (B2R 53 1024 x + B2R 53 1024 y) in
+  if Rlt_bool (Rabs s) (bpow radix2 1024) then
+    addF x y = Err (EExc FloatOverflow) \/
+    exists r, addF x y = Ok r /\ B2R 53 1024 r = s /\ fis_finite r = true
+  else addF x y = Err (EExc FloatOverflow).
+Proof. exact addF_correct. Qed.
+
+Theorem C07_subF : forall x y : f64, fis_finite x = true -> fis_finite y = true ->
+  let s := rnd (B2R 53 1024 x - B2R 53 1024 y) in
+  if Rlt_bool (Rabs s) (bpow radix2 1024) then
+    subF x y = Err (EExc FloatOverflow) \/
+    exists r, subF x y = Ok r /\ B2R 53 1024 r = s /\ fis_finite r = true
+  else subF x y = Err (EExc FloatOverflow).
+Proof. exact subF_correct. Qed.
+Print Assumptions C07_addF.
+
+(** non-vacuity and the witness of F32: the pre-checks pass, the IEEE sum is infinite *)
+Example C07_addF_rounds_to_infinity :
+  let x := of_bits 9218868437227405310 in let y := of_bits 8982429456790454272 in
+  fis_finite x = true /\ fis_finite y = true /\ fis_inf (fadd x y) = true /\
+  fgt x (fsub (of_bits 9218868437227405311) y) = false /\ addF x y = Err (EExc FloatOverflow).
+Proof. vm_compute. repeat split; reflexivity. Qed.
+Example C07_addF_ok : exists r, addF (of_int 1) (of_int 2) = Ok r /\ to_bits r = to_bits (of_int 3).
+Proof. eexists. split; [reflexivity | vm_compute; reflexivity]. Qed.
+
 (** the recorded finding F9, as a theorem about the model: float addition reports
     float_overflow for operands whose IEEE sum is finite (63.0 + the largest float) *)
 Theorem C07_addF_exact_or_overflow_refuted :
